@@ -62,6 +62,55 @@ def check_same_source(ctx, F):
 rules.callee = __import__('vlib.facts', fromlist=['callee']).callee
 
 
+def _first_word_term(r):
+    """payload of the first word-reading call on this path that is not inside a loop (the top word of imported data)."""
+    for e in r.events:
+        if e['kind'] == 'loop_enter':
+            return None
+        if e['kind'] == 'call' and e.get('uid') is not None and (e['callee'].endswith('ReadWords::read') or e['callee'].endswith('FnMut::call_mut')):
+            return e['result']
+    return None
+
+
+def check_top_word_nonzero(ctx, F, body, who, exported_by):
+    """An importer of *compressed* data (as opposed to raw binary data) must reject data whose top word is zero, because
+    the matching exporter never emits a zero top word (it drops leading zero words of the state / drains the head down to
+    zero): accepting such data makes import followed by export lose the zero words.  Rule: every accepting path that took
+    a word from the source carries the decision `top word != 0`, made on the word itself."""
+    key = 'R2/top-word-nonzero/' + who
+    role = 'import of compressed data rejects a zero top word (%s never emits one)' % exported_by
+    if body is None:
+        return ctx.unresolved('R2', role, who, 'importer not found', key=key)
+    ev, paths = rules.evaluate(body)
+    ctx.touch(body)
+    n = 0
+    for r in paths or []:
+        if r.end != 'return' or r.ret is None or rules.ret_shape(r.ret)[0] != 'Ok':
+            continue
+        w = _first_word_term(r)
+        if w is None:
+            continue
+        # did this path actually obtain a word (Some)?
+        got = False
+        nonzero = False
+        for t, v, _ in r.preds:
+            if t[0] == 'discr' and sym.contains(t[1], lambda x: x == w) and sym.discr_variant(t, v) == 'Some':
+                got = True
+            if t[0] == 'bin' and t[1] in ('Eq', 'Ne'):
+                for a, b in ((t[2], t[3]), (t[3], t[2])):
+                    if a[0] == 'k' and a[1] == 'zero' and b[0] == 'payload' and sym.contains(b, lambda x: x == w) and not sym.contains(b, lambda x: isinstance(x, tuple) and x and x[0] == 'bin'):
+                        if (t[1] == 'Eq' and not v) or (t[1] == 'Ne' and v):
+                            nonzero = True
+        if not got:
+            continue
+        n += 1
+        if not nonzero:
+            return ctx.bad('R2', role, body.defpath, 'an accepting path takes the top word from the source without deciding that it is non-zero: data ending in zero words is imported, and exporting the coder again drops those words', key=key, loc=rules.loc(body))
+    if not n:
+        return ctx.unresolved('R2', role, body.defpath, 'no accepting path that reads a word before the fill loop', key=key)
+    return ctx.ok('R2', role, body.defpath, '%d accepting path(s), each decides `top word != 0` on the word itself' % n, key=key)
+
+
 def check_marker_pairing(ctx, F):
     fb = c08.get_body(F, [ANS + '::<', '::from_binary'], 'from_binary')
     key = 'R5/marker-pushed/' + ANS
@@ -192,6 +241,8 @@ def run(ctx):
     check_same_source(ctx, F)
     check_marker_pairing(ctx, F)
     check_refill_threshold(ctx, F)
+    _fb, helper = anchors.ans_import_loops(F)
+    check_top_word_nonzero(ctx, F, helper, ANS + '::from_compressed', 'into_compressed')
     import props.C18 as c18
     c18.check_valid_bits(ctx, F)          # "the number of payload bits reported is exact"
     ctx.assume('bit_array_to_chunks_truncated(x) yields the non-zero-led chunks of x, most significant first (its arithmetic is not decided)')
